@@ -156,7 +156,7 @@ def print_assumptions(prop):
         for ln in blk.splitlines():
             # an axiom's name starts its line; its (possibly multi-line) type is indented
             m = re.match(r"([A-Za-z_][\w.']*)", ln)
-            if m:
+            if m and m.group(1) not in ('Axioms', 'Closed'):
                 axioms.append(m.group(1))
     axioms = sorted(set(axioms))
     if axioms and prop not in AXIOM_USERS:
